@@ -187,6 +187,9 @@ FCONFIGS = [
     {"quote": "`", "escape": "\\", "escape_quote": False, "escape_pattern": r"[\\`]", "quote_pattern": None},
     {"quote": "'", "escape": "\\", "escape_quote": True, "escape_pattern": None, "quote_pattern": None},
     {"quote": "'", "escape": "\\", "escape_quote": False, "escape_pattern": r"\\", "quote_pattern": None},
+    # the escape pattern also matches the quote character (a position found twice must be escaped once)
+    {"quote": "'", "escape": "\\", "escape_quote": True, "escape_pattern": r"[^\w]", "quote_pattern": r"^\w+$"},
+    {"quote": '"', "escape": "\\", "escape_quote": True, "escape_pattern": r"[\"\\ ]", "quote_pattern": None},
 ]
 FALPHA = ["a", "B", "'", '"', "\\", " ", "`", ".", "_", "é"]
 def gen_field(tier, rng):
@@ -194,7 +197,7 @@ def gen_field(tier, rng):
     if tier == "quick":
         fs = [f for f in fs if len(f) <= 2] + rng.sample([f for f in fs if len(f) > 2], 400)
     fs += ["".join(rng.choice(FALPHA) for _ in range(rng.randint(4, 9))) for _ in range(200 if tier == "quick" else 3000)]
-    return [{"k": k, "f": f} for f in fs for k in (rng.sample(FCONFIGS, 3) if tier == "quick" else FCONFIGS)]
+    return [{"k": k, "f": f} for f in fs for k in (rng.sample(FCONFIGS, 4) if tier == "quick" else FCONFIGS)]
 
 def quote_decision(k, f):
     import re
